@@ -19,6 +19,7 @@ from __future__ import annotations
 
 import itertools
 import math
+import os
 
 import numpy as np
 
@@ -27,10 +28,13 @@ from mc.kernel import Space
 
 PROPERTY = "C14"
 RULE = (
-    "collinear: every chain (2..N nodes) and every root with two opposite arms of 1..2 nodes, radii in {0.5,1,1.5}^n x "
+    "collinear: every chain (1..N nodes) and every root with two opposite arms of 1..2 nodes, radii in {0.5,1,1.5}^n (small n: also 0) x "
     "spacings in {1.5,2,3,4}^(n-1), kept iff compartments >= both end radii and non-adjacent parts do not touch "
     "(reference predicate, tangency = touching), x orientations x accuracy {1..9, low, middle, high, default} (largest size of the tier: {1,2,3,4,5,9,default}) "
-    "x RNG answer menu (all 6 answers for n<=3, one default answer otherwise); general: every sorted tree ST(n) and unsorted "
+    "x RNG answer menu (all 6 answers for small n, one default answer otherwise), plus every unsorted renumbering of the layout "
+    "(largest size: the reversed one) at levels 2, 3, 5; query-edit-query: every single radius / spacing edit of the small layouts applied in "
+    "place through node handles, columns, or on a copy, all queries asked before and after; history: every ordered pair (thorough: triple) "
+    "of 8 fixed layouts queried in sequence, first object again at the end; general: every sorted tree ST(n) and unsorted "
     "labelled tree LT(n) up to the tier bound x generic banks and a lattice geometry with zero-length edges at levels 1 and 2. "
     "Distinct = distinct (shape, radii, spacings, orientation, rng answer) resp. (parent table, geometry); non-trivial = at least one edge."
 )
@@ -57,6 +61,7 @@ ORIENT = (
 ORIGIN = (0.5, -1.0, 2.0)
 ACC_ALL = (1, 2, 3, 4, 5, 6, 7, 8, 9, "low", "middle", "high")
 ACC_BIG = (1, 2, 3, 4, 5, 9)  # "middle" is still exercised as the default accuracy
+ACC_PERM = (2, 3, 5)  # renumbered copies of a layout
 NAMES = {"low": 3, "middle": 5, "high": 8}
 # legal answers of np.random.rand(3) (values in [0,1)); slot 0 is replaced by a vector parallel to the axis when legal
 RAND_MENU = (
@@ -94,7 +99,7 @@ def layout(shape, spacings):
 
 
 def shapes_up_to(nmax):
-    out = []
+    out = [("chain", 1)]
     for n in range(2, nmax + 1):
         out.append(("chain", n))
         for a in (1, 2):
@@ -104,20 +109,40 @@ def shapes_up_to(nmax):
     return out
 
 
-def collinear_cases(nmax, n_orient, full_rng_upto, default_k, sp_for=None, big_from=5):
-    for shape in shapes_up_to(nmax):
-        n = shape[1] if shape[0] == "chain" else 1 + shape[1] + shape[2]
-        sps = SPACINGS if sp_for is None else sp_for(n)
-        for rs in itertools.product(RADII, repeat=n):
-            for ds in itertools.product(sps, repeat=n - 1):
+def size_of(shape):
+    return shape[1] if shape[0] == "chain" else 1 + shape[1] + shape[2]
+
+
+def numberings(p, mode):
+    """Relabellings perm (perm[i] = new number of node i, root stays 0) that give an UNSORTED but well-formed table."""
+    n = len(p)
+    if mode is None or n < 3:
+        return
+    cands = [[0] + list(range(n - 1, 0, -1))] if mode == "reversed" else [[0] + list(q) for q in itertools.permutations(range(1, n))]
+    for perm in cands:
+        q = [0] * n
+        for i in range(n):
+            q[perm[i]] = -1 if p[i] == -1 else perm[p[i]]
+        if not ref.is_sorted(q):
+            yield perm
+
+
+def collinear_cases(cfg):
+    for shape in shapes_up_to(cfg["nmax"]):
+        n = size_of(shape)
+        radii = ((0.0,) + RADII) if n <= cfg["zero_upto"] else RADII
+        for rs in itertools.product(radii, repeat=n):
+            for ds in itertools.product(cfg["sp_for"](n), repeat=n - 1):
                 p, zs = layout(shape, ds)
                 ok, _ = RV.admissible(zs, rs, ref.edges(p))
                 if not ok:
                     continue
-                for o in range(n_orient(n) if callable(n_orient) else n_orient):
-                    ks = range(len(RAND_MENU)) if n <= full_rng_upto else (default_k,)
+                for o in range(cfg["n_orient"](n)):
+                    ks = range(len(RAND_MENU)) if n <= cfg["full_rng"] else cfg["ks"]
                     for k in ks:
-                        yield (list(shape), list(rs), list(ds), o, k, "big" if n >= big_from else "all")
+                        yield (list(shape), list(rs), list(ds), o, k, "big" if n >= cfg["big_from"] else "all", None)
+                for perm in numberings(p, cfg["perm_mode"](n)):
+                    yield (list(shape), list(rs), list(ds), 0, cfg["default_k"], "perm", perm)
 
 
 # ------------------------------------------------------------------ owned RNG
@@ -203,112 +228,336 @@ def _perp_basis(axis):
 # ------------------------------------------------------------------ part A
 
 
-def check_collinear(case, R):
-    from swcgeom.analysis import get_volume
-    from swcgeom.analysis.feature_extractor import extract_feature
-    from swcgeom.utils.volumetric_object import VolMCObject
-
-    shape, rs, ds, o, k = tuple(case[0]), [float(x) for x in case[1]], [float(x) for x in case[2]], int(case[3]), int(case[4])
+def geometry(shape, rs, ds, o, perm=None):
+    """Canonical layout (node i of the shape) and, if perm is given, the same tree with node i numbered perm[i]."""
     axis = ORIENT[o]
     p, zs_nom = layout(shape, ds)
     n = len(p)
-    edges = ref.edges(p)
     xyz = [tuple(build.f32(ORIGIN[c] + z * axis[c]) for c in range(3)) for z in zs_nom]
     r32 = [build.f32(r) for r in rs]
     # what the implementation sees: stored coordinates projected on the axis
     zs = [sum((q[c] - xyz[0][c]) * axis[c] for c in range(3)) for q in xyz]
-    ok, why = RV.admissible(zs, r32, edges)
-    if not ok:  # cannot happen for generated cases (alphabet values are exact in float32 up to 1e-7); be explicit
+    g = {"shape": shape, "rs": rs, "ds": ds, "o": o, "axis": axis, "p": p, "zs_nom": zs_nom, "xyz": xyz, "r": r32, "zs": zs,
+         "edges": ref.edges(p), "n": n, "two_arm": shape[0] == "arms"}
+    if perm is None:
+        g["tp"], g["txyz"], g["tr"] = p, xyz, r32
+    else:
+        q, qx, qr = [0] * n, [None] * n, [0.0] * n
+        for i in range(n):
+            q[perm[i]] = -1 if p[i] == -1 else perm[p[i]]
+            qx[perm[i]] = xyz[i]
+            qr[perm[i]] = r32[i]
+        g["tp"], g["txyz"], g["tr"] = q, qx, qr
+    return g
+
+
+def reference(g):
+    ok, why = RV.admissible(g["zs"], g["r"], g["edges"])
+    if not ok:
+        return None, why
+    lens = [RV.lens_volume(g["r"][i], g["r"][j], abs(g["zs"][i] - g["zs"][j])) for i, j in g["edges"]]
+    has_lens = any(v > 1e-9 for v in lens)
+    return {
+        1: RV.level1(g["r"]), 2: RV.level2(g["xyz"], g["r"], g["edges"]), "union": RV.checked_union(g["zs"], g["r"], g["edges"]),
+        "lens": lens, "tag": ("lens" if has_lens else "nolens") + (":arms" if g["two_arm"] else ":chain"),
+    }, ""
+
+
+def plane_points(g, radii=None):
+    """Points on the plane through the root, perpendicular to the axis (where opposite frusta meet)."""
+    u, v = _perp_basis(g["axis"])
+    out = []
+    for r0 in radii or [g["r"][0]]:
+        for rho in (0.0, 0.3 * r0, 0.9 * r0, 1.2 * r0):
+            for w in (u, v, -u, (u + v) / math.sqrt(2)):
+                out.append(tuple(float(g["xyz"][0][c] + rho * w[c]) for c in range(3)))
+    return out
+
+
+def call_volume(R, rng, t, g, want, acc, label):
+    """One get_volume call, judged against the reference of geometry g.  Returns the value or None."""
+    from swcgeom.analysis import get_volume
+
+    lvl = NAMES.get(acc, acc)
+    n_before = len(rng.samples)
+    okv, val = R.impl(f"get_volume[{acc}]", (lambda: get_volume(t)) if acc == "default" else (lambda: get_volume(t, accuracy=acc)))
+    if not okv:
+        return None
+    val = float(val)
+    if lvl == "default":
+        lvl = 5
+    if lvl >= 5 and g["two_arm"]:
+        # the reference decides whether the sampled term is unambiguous for this sample set
+        r0 = g["r"][0]
+        amb = False
+        for pts in rng.samples[n_before:]:
+            d = pts - np.array(g["xyz"][0])
+            s = d @ np.array(g["axis"])
+            rho = np.sqrt(np.maximum((d * d).sum(1) - s * s, 0.0))
+            if bool(np.any((np.abs(s) < 1e-5) & (np.abs(rho - r0) < 1e-5))):
+                amb = True
+        R.note("mc-sample-sets", len(rng.samples) - n_before)
+        if amb:
+            R.skip("mc-sample-on-triple-surface")
+            return val
+    if lvl == 1:
+        R.check(abs(val - want[1]) <= REL12 * want[1] + 1e-12, "level1:sum-of-spheres",
+                lambda: f"{label}: accuracy={acc} -> {val!r}, sum of spheres {want[1]!r}")
+    elif lvl == 2:
+        R.check(abs(val - want[2]) <= REL12 * want[2] + 1e-12, "level2:spheres+frusta",
+                lambda: f"{label}: accuracy={acc} -> {val!r}, spheres+frusta {want[2]!r}")
+    else:
+        union = want["union"]
+        R.note("relerr<=" + _bucket(abs(val - union) / union if union > 0 else abs(val)))
+        R.check(
+            math.isfinite(val) and abs(val - union) <= REL3 * union + 1e-9, "union",
+            lambda: f"{label}: accuracy={acc} -> {val!r}, union volume {union!r} "
+            f"(diff {val - union:+.6f}; lens volumes {[round(x, 6) for x in want['lens']]})",
+            f"union:{want['tag']}:" + ("default" if acc == "default" else "analytic" if lvl < 5 or not g["two_arm"] else "with-mc-term"),
+        )
+    return val
+
+
+def label_of(g):
+    return f"{tuple(g['shape'])} r={g['rs']} d={g['ds']} o={g['o']}" + (f" numbering={g['tp']}" if g["tp"] != g["p"] else "")
+
+
+def check_collinear(case, R):
+    from swcgeom.analysis.feature_extractor import extract_feature
+    from swcgeom.utils.volumetric_object import VolMCObject
+
+    shape, rs, ds, o, k = tuple(case[0]), [float(x) for x in case[1]], [float(x) for x in case[2]], int(case[3]), int(case[4])
+    accset = case[5] if len(case) > 5 else "all"
+    perm = [int(v) for v in case[6]] if len(case) > 6 and case[6] is not None else None
+    g = geometry(shape, rs, ds, o, perm)
+    want, why = reference(g)
+    if want is None:  # a spacing equal to a radius can fall short by one float32 ulp in an oblique orientation
         R.skip("precondition:" + why)
         R.trivial()
         return
-    R.state(shape, rs, ds)
-    t = build.make_tree(p, xyz=xyz, r=r32)
+    n = g["n"]
+    if n < 2:
+        R.trivial()
+    R.state(shape, rs, ds, perm)
+    t = build.make_tree(g["tp"], xyz=g["txyz"], r=g["tr"])
     snap = build.snapshot(t)
-
-    lens = [RV.lens_volume(r32[i], r32[j], abs(zs[i] - zs[j])) for i, j in edges]
-    has_lens = any(v > 1e-9 for v in lens)
-    two_arm = shape[0] == "arms"
     sig = tuple(
-        ((r32[j] > r32[i]) - (r32[j] < r32[i]), lens[e] > 1e-9, abs(abs(zs_nom[i] - zs_nom[j]) - rs[i]) < 1e-9, abs(abs(zs_nom[i] - zs_nom[j]) - rs[j]) < 1e-9)
-        for e, (i, j) in enumerate(edges)
+        ((g["r"][j] > g["r"][i]) - (g["r"][j] < g["r"][i]), want["lens"][e] > 1e-9,
+         abs(abs(g["zs_nom"][i] - g["zs_nom"][j]) - rs[i]) < 1e-9, abs(abs(g["zs_nom"][i] - g["zs_nom"][j]) - rs[j]) < 1e-9, g["r"][i] == 0, g["r"][j] == 0)
+        for e, (i, j) in enumerate(g["edges"])
     )
-    R.outcome(shape[0], sig)
-
-    want = {1: RV.level1(r32), 2: RV.level2(xyz, r32, edges)}
-    union = RV.checked_union(zs, r32, edges)
-    tag = ("lens" if has_lens else "nolens") + (":arms" if two_arm else ":chain")
-
-    # points on the plane through the root, perpendicular to the axis (where opposite frusta meet)
-    u, v = _perp_basis(axis)
-    r0 = r32[0]
-    plane = []
-    for rho in (0.0, 0.3 * r0, 0.9 * r0, 1.2 * r0):
-        for w in (u, v, -u, (u + v) / math.sqrt(2)):
-            plane.append(tuple(float(xyz[0][c] + rho * w[c]) for c in range(3)))
-
-    accs = ACC_BIG if len(case) > 5 and case[5] == "big" else ACC_ALL
-    with OwnedRNG(axis, k, plane) as rng:
+    R.outcome(shape[0], sig, perm is not None)
+    label = label_of(g) + f" rng={k}"
+    accs = {"all": ACC_ALL, "big": ACC_BIG, "perm": ACC_PERM}[accset]
+    with OwnedRNG(g["axis"], k, plane_points(g)) as rng:
         VolMCObject.n_samples = 4096 if n <= 3 else 512
         got = {}
         for acc in accs:
-            lvl = NAMES.get(acc, acc)
-            n_before = len(rng.samples)
-            okv, val = R.impl(f"get_volume[{acc}]", lambda: get_volume(t, accuracy=acc))
-            if not okv:
-                continue
-            val = float(val)
-            got[acc] = val
-            if lvl >= 5 and two_arm:
-                # reference decides whether the sampled term is unambiguous for this sample set
-                amb = False
-                for pts in rng.samples[n_before:]:
-                    d = pts - np.array(xyz[0])
-                    s = d @ np.array(axis)
-                    rho = np.sqrt(np.maximum((d * d).sum(1) - s * s, 0.0))
-                    if bool(np.any((np.abs(s) < 1e-5) & (np.abs(rho - r0) < 1e-5))):
-                        amb = True
-                R.note("mc-sample-sets", len(rng.samples) - n_before)
-                if amb:
-                    R.skip("mc-sample-on-triple-surface")
-                    continue
-            if lvl == 1:
-                R.check(abs(val - want[1]) <= REL12 * want[1], "level1:sum-of-spheres",
-                        lambda: f"{shape} r={rs} d={ds} o={o}: accuracy={acc} -> {val!r}, sum of spheres {want[1]!r}")
-            elif lvl == 2:
-                R.check(abs(val - want[2]) <= REL12 * want[2], "level2:spheres+frusta",
-                        lambda: f"{shape} r={rs} d={ds} o={o}: accuracy={acc} -> {val!r}, spheres+frusta {want[2]!r}")
-            else:
-                R.note("relerr<=" + _bucket(abs(val - union) / union))
-                R.check(
-                    math.isfinite(val) and abs(val - union) <= REL3 * union, "union",
-                    lambda: f"{shape} r={rs} d={ds} o={o} rng={k}: accuracy={acc} -> {val!r}, union volume {union!r} "
-                    f"(diff {val - union:+.6f}; lens volumes {[round(x, 6) for x in lens]})",
-                    f"union:{tag}:" + ("analytic" if lvl < 5 or not two_arm else "with-mc-term"),
-                )
+            v = call_volume(R, rng, t, g, want, acc, label)
+            if v is not None:
+                got[acc] = v
         # names are the documented levels
         for nm, lvl in NAMES.items():
             if nm in got and lvl in got:
-                R.check(abs(got[nm] - got[lvl]) <= 1e-6 * abs(got[lvl]), "accuracy-name", lambda: f"{nm} -> {got[nm]!r} but level {lvl} -> {got[lvl]!r}")
-        # feature extractor reports get_volume(t) (default accuracy)
-        rng.reset()
-        okd, dflt = R.impl("get_volume[default]", lambda: get_volume(t))
-        rng.reset()
-        okf, feat = R.impl("extract_feature.volume", lambda: extract_feature(t).get("volume"))
-        if okd and okf:
-            feat = np.asarray(feat)
-            R.check(feat.shape == (1,) and float(feat[0]) == float(np.float32(dflt)), "feature:volume",
-                    lambda: f"{shape} r={rs} d={ds}: extract_feature(t).get('volume') = {feat!r}, get_volume(t) = {dflt!r}")
-            R.check(abs(float(dflt) - union) <= REL3 * union, "union",
-                    lambda: f"{shape} r={rs} d={ds} o={o}: default accuracy -> {float(dflt)!r}, union {union!r}", f"union:{tag}:default")
-            # keyword arguments reach get_volume: level 1 through the extractor is the plain sum of spheres
-            okk, f1 = R.impl("extract_feature.volume[accuracy=1]", lambda: extract_feature(t).get("volume", accuracy=1))
-            if okk:
-                R.check(abs(float(np.asarray(f1)[0]) - want[1]) <= REL12 * want[1], "feature:volume",
-                        lambda: f"{shape} r={rs}: extract_feature(t).get('volume', accuracy=1) = {f1!r}, sum of spheres {want[1]!r}", "feature:volume:kwargs")
+                R.check(abs(got[nm] - got[lvl]) <= 1e-6 * abs(got[lvl]) + 1e-12, "accuracy-name", lambda: f"{nm} -> {got[nm]!r} but level {lvl} -> {got[lvl]!r}")
+        if accset != "perm":
+            # feature extractor reports get_volume(t) (default accuracy); same environment answers for both calls
+            rng.reset()
+            dflt = call_volume(R, rng, t, g, want, "default", label)
+            rng.reset()
+            okf, feat = R.impl("extract_feature.volume", lambda: extract_feature(t).get("volume"))
+            if dflt is not None and okf:
+                feat = np.asarray(feat)
+                R.retain("extract_feature.volume", lambda a=feat: a)
+                R.check(feat.shape == (1,) and float(feat[0]) == float(np.float32(dflt)), "feature:volume",
+                        lambda: f"{label}: extract_feature(t).get('volume') = {feat!r}, get_volume(t) = {dflt!r}")
+                # keyword arguments reach get_volume: level 1 through the extractor is the plain sum of spheres
+                okk, f1 = R.impl("extract_feature.volume[accuracy=1]", lambda: extract_feature(t).get("volume", accuracy=1))
+                if okk:
+                    R.check(abs(float(np.asarray(f1)[0]) - want[1]) <= REL12 * want[1] + 1e-12, "feature:volume",
+                            lambda: f"{label}: extract_feature(t).get('volume', accuracy=1) = {f1!r}, sum of spheres {want[1]!r}", "feature:volume:kwargs")
         R.note("rand-calls", rng.rand_calls)
         R.note("mc-samples-on-root-plane", rng.on_plane)
-    R.check(build.snapshot(t) == snap, "input-modified", lambda: f"{shape} r={rs} d={ds}")
+    R.check(build.snapshot(t) == snap, "input-modified", lambda: label)
+
+
+# ------------------------------------------------------------------ query -> edit in place -> query again
+
+EDIT_HOWS = ("handle", "column", "copy-then-handle")
+EDIT_ACCS = (1, 2, 3, 5)
+
+
+def edit_cases(shapes, radii_for, spacings_for, orients_for):
+    for shape in shapes:
+        n = shape[1] if shape[0] == "chain" else 1 + shape[1] + shape[2]
+        for rs in itertools.product(radii_for(n), repeat=n):
+            for ds in itertools.product(spacings_for(n), repeat=n - 1):
+                p, zs = layout(shape, ds)
+                if not RV.admissible(zs, rs, ref.edges(p))[0]:
+                    continue
+                edits = [("r", i, v) for i in range(n) for v in RADII if v != rs[i]]
+                edits += [("d", e, v) for e in range(n - 1) for v in spacings_for(n) if v != ds[e]]
+                for kind, i, v in edits:
+                    rs2, ds2 = list(rs), list(ds)
+                    (rs2 if kind == "r" else ds2)[i] = v
+                    p2, zs2 = layout(shape, ds2)
+                    if not RV.admissible(zs2, rs2, ref.edges(p2))[0]:
+                        continue
+                    for o in orients_for(n):
+                        for how in EDIT_HOWS:
+                            yield (list(shape), list(rs), list(ds), o, [kind, i, v], how)
+
+
+def check_edit(case, R):
+    """Warm every query, change a radius / a spacing IN PLACE through the public API, query again: the answers must
+    describe the current content (and the original must keep its answers when a copy was edited)."""
+    from swcgeom.analysis.feature_extractor import extract_feature
+    from swcgeom.utils.volumetric_object import VolMCObject
+
+    shape, rs, ds, o = tuple(case[0]), [float(x) for x in case[1]], [float(x) for x in case[2]], int(case[3])
+    (kind, i, v), how = case[4], case[5]
+    i, v = int(i), float(v)
+    rs2, ds2 = list(rs), list(ds)
+    (rs2 if kind == "r" else ds2)[i] = v
+    g0, g1 = geometry(shape, rs, ds, o), geometry(shape, rs2, ds2, o)
+    w0, why0 = reference(g0)
+    w1, why1 = reference(g1)
+    if w0 is None or w1 is None:
+        R.skip("precondition:" + (why0 or why1))
+        R.trivial()
+        return
+    R.state(shape, rs, ds, kind, i, v)
+    R.outcome(shape[0], kind, how, w0["tag"], w1["tag"])
+    t = build.make_tree(g0["p"], xyz=g0["xyz"], r=g0["r"])
+    k = 1
+    with OwnedRNG(g0["axis"], k, plane_points(g0, [g0["r"][0], g1["r"][0]])) as rng:
+        VolMCObject.n_samples = 512
+
+        def ask(tree, g, want, label):
+            for acc in EDIT_ACCS:
+                call_volume(R, rng, tree, g, want, acc, label)
+            okf, feat = R.impl("extract_feature.volume", lambda: extract_feature(tree).get("volume", accuracy=3))
+            if okf:
+                u = want["union"]
+                R.check(abs(float(np.asarray(feat)[0]) - u) <= REL3 * u + 1e-9, "union", lambda: f"{label}: extractor (accuracy=3) -> {feat!r}, union {u!r}",
+                        f"union:{want['tag']}:extractor")
+
+        ask(t, g0, w0, f"{label_of(g0)} before the edit")
+        target = t.copy() if how == "copy-then-handle" else t
+        if how == "column":
+            if kind == "r":
+                target.r()[i] = g1["r"][i]
+            else:
+                for c, col in enumerate((target.x(), target.y(), target.z())):
+                    for j in range(g1["n"]):
+                        col[j] = g1["xyz"][j][c]
+        else:
+            if kind == "r":
+                target.node(i).r = g1["r"][i]
+            else:
+                for j in range(g1["n"]):
+                    nd = target.node(j)
+                    nd.x, nd.y, nd.z = g1["xyz"][j]
+        now = [tuple(float(q) for q in row) for row in zip(target.x().tolist(), target.y().tolist(), target.z().tolist())]
+        if now != [tuple(float(q) for q in row) for row in g1["xyz"]] or [float(q) for q in target.r().tolist()] != [float(q) for q in g1["r"]]:
+            R.skip("edit-not-applied-by-this-route")  # whether a handle writes through is C09's business
+            return
+        ask(target, g1, w1, f"{label_of(g0)} after {kind}[{i}] := {v} via {how}")
+        if how == "copy-then-handle":
+            ask(t, g0, w0, f"{label_of(g0)} original after its copy was edited ({kind}[{i}] := {v})")
+
+
+# ------------------------------------------------------------------ call histories
+
+HIST_GEOS = (
+    (("chain", 1), (1.0,), (), 0),
+    (("chain", 2), (0.5, 1.5), (1.5,), 0),  # lens
+    (("chain", 2), (1.5, 0.5), (3.0,), 2),
+    (("chain", 3), (1.0, 0.5, 1.0), (1.5, 2.0), 1),
+    (("chain", 3), (0.5, 0.5, 1.5), (2.0, 1.5), 2),
+    (("arms", 1, 1), (1.0, 0.5, 1.0), (1.5, 2.0), 0),  # Monte-Carlo term at level 5
+    (("arms", 1, 1), (1.5, 1.0, 0.5), (2.0, 3.0), 2),
+    (("arms", 1, 2), (0.5, 1.0, 1.0, 1.5), (2.0, 1.5, 2.0), 1),
+)
+
+
+def check_history(case, R):
+    """get_volume / extract_feature on a sequence of fresh trees (then the first tree object again): every answer is judged
+    when returned; feature arrays are re-inspected after the later calls."""
+    from swcgeom.analysis.feature_extractor import extract_feature
+    from swcgeom.utils.volumetric_object import VolMCObject
+
+    seq = [int(i) for i in case]
+    R.state(tuple(seq))
+    R.outcome(tuple(seq))
+    objs, feats = [], []
+    for pos, gi in enumerate(seq + seq[:1]):
+        shape, rs, ds, o = HIST_GEOS[gi]
+        g = geometry(shape, list(rs), list(ds), o)
+        want, _ = reference(g)
+        assert want is not None, "history geometries are admissible"
+        if pos < len(seq):
+            objs.append(build.make_tree(g["p"], xyz=g["xyz"], r=g["r"]))
+            t = objs[-1]
+        else:
+            t = objs[0]
+        label = f"history {seq} call #{pos} on {label_of(g)}"
+        with OwnedRNG(g["axis"], 1, plane_points(g)) as rng:
+            VolMCObject.n_samples = 512
+            for acc in (3, 5, 1, "default"):
+                call_volume(R, rng, t, g, want, acc, label)
+            okf, feat = R.impl("extract_feature.volume", lambda: extract_feature(t).get("volume"))
+            if okf:
+                feat = np.asarray(feat)
+                u = want["union"]
+                R.check(feat.shape == (1,) and abs(float(feat[0]) - u) <= REL3 * u + 1e-9, "union", lambda: f"{label}: extractor -> {feat!r}, union {u!r}",
+                        f"union:{want['tag']}:extractor")
+                feats.append((pos, feat, feat.copy()))
+    for pos, feat, first in feats:
+        R.check(np.array_equal(feat, first), "feature:result-changed-by-later-calls", lambda: f"history {seq}: array returned by call #{pos} changed afterwards")
+
+
+
+
+# ------------------------------------------------------------------ the same histories, each in a FRESH interpreter
+
+_FRESH_CODE = """
+import sys, json, warnings
+sys.path[:0] = [sys.argv[1], sys.argv[2]]
+warnings.simplefilter("ignore")
+from mc import kernel
+from mc.props import %(mod)s as M
+seq = json.loads(sys.argv[3])
+R = kernel.Recorder("fresh", 0)
+R._begin(0, seq)
+M.%(fn)s(seq, R)
+print("RESULT" + json.dumps({k: {"count": v["count"], "kind": v["example"]["kind"], "detail": v["example"]["detail"]} for k, v in R.viol.items()}))
+"""
+
+
+def check_fresh(case, R):
+    """State that is decided by the FIRST call of a process (lazily initialised module state) is invisible to a worker
+    that has already executed other cases: run the sequence in a new interpreter and import its verdicts."""
+    import json
+    import subprocess
+    import sys
+
+    repo = os.environ.get("VERIF_REPO", "/repo")
+    root = os.path.dirname(os.path.dirname(os.path.dirname(os.path.abspath(__file__))))
+    R.state(tuple(case))
+    R.outcome(tuple(case))
+    R.trans()
+    r = subprocess.run([sys.executable, "-c", _FRESH_CODE % {"mod": 'c14', "fn": 'check_history'}, repo, root, json.dumps(list(case))],
+                       capture_output=True, text=True, timeout=110, env=dict(os.environ, PYTHONDONTWRITEBYTECODE="1"))
+    line = next((ln for ln in r.stdout.splitlines() if ln.startswith("RESULT")), None)
+    if line is None:
+        raise RuntimeError(f"fresh interpreter failed for {case}: exit {r.returncode}: {r.stderr[-600:]}")
+    for klass, v in json.loads(line[6:]).items():
+        for _ in range(v["count"]):
+            R.fail(v["kind"], f"in a fresh process, sequence {list(case)}: " + v["detail"], "fresh-process:" + klass)
+
+
+FRESH_GEOS = (1, 3, 5, 7)  # indices into HIST_GEOS
 
 
 # ------------------------------------------------------------------ part B
@@ -317,7 +566,7 @@ def check_collinear(case, R):
 def lattice_geometry(n):
     """Coordinates in {0,1,2}^3 by index; nodes 3 and 4 coincide with nodes 1 and 0 (zero-length edges possible)."""
     pts = [(0, 0, 0), (1, 0, 0), (1, 2, 0), (1, 0, 0), (0, 0, 0), (2, 1, 2), (0, 2, 1), (2, 2, 2)]
-    rad = [1.0, 0.5, 0.25, 0.5, 2.0, 0.75, 1.5, 0.125]
+    rad = [1.0, 0.5, 0.0, 0.5, 2.0, 0.75, 1.5, 0.125]  # node 2 is a point (radius 0)
     return [tuple(float(c) for c in q) for q in pts[:n]], rad[:n]
 
 
@@ -346,7 +595,7 @@ def check_general(case, R):
             ok, val = R.impl(f"get_volume[{acc}]", lambda: get_volume(t, accuracy=acc))
             if ok:
                 val = float(val)
-                R.check(math.isfinite(val) and abs(val - want) <= REL12 * want, kind_,
+                R.check(math.isfinite(val) and abs(val - want) <= REL12 * want + 1e-12, kind_,
                         lambda: f"{kind} p={p} geometry={geo}: accuracy={acc} -> {val!r}, want {want!r}")
     R.check(build.snapshot(t) == snap, "input-modified", lambda: f"p={p}")
 
@@ -357,16 +606,21 @@ def check_general(case, R):
 def spaces(tier, seed):
     default_k = 1 + seed % 5
     if tier == "quick":
-        nmax, n_orient, full_rng = 4, 3, 2
-        sp_for = lambda n: SPACINGS if n <= 3 else (1.5, 2.0, 3.0)  # noqa: E731
-        st_hi, lt_hi, banks = 6, 4, (seed % 4,)
-        big_from = 4
+        cfg = {"nmax": 4, "n_orient": lambda n: 3 if n <= 3 else 2, "full_rng": 2, "default_k": default_k, "ks": (default_k,), "big_from": 4, "zero_upto": 2,
+               "sp_for": lambda n: SPACINGS if n <= 3 else (1.5, 2.0, 3.0), "perm_mode": lambda n: "all" if n <= 3 else "reversed"}
+        st_hi, lt_hi, banks, hist_depth = 6, 4, (seed % 4,), 2
+        e_shapes = [("chain", 1), ("chain", 2), ("chain", 3), ("arms", 1, 1)]
+        e_radii = lambda n: RADII if n <= 2 else (0.5, 1.5)  # noqa: E731
+        e_sp = lambda n: SPACINGS if n <= 2 else (1.5, 2.0, 3.0)  # noqa: E731
+        e_orients = lambda n: (2,)  # noqa: E731
     else:
-        nmax, full_rng = 5, 3
-        n_orient = lambda n: 5 if n <= 3 else 3  # noqa: E731
-        sp_for = lambda n: SPACINGS if n <= 4 else (1.5, 2.0, 3.0)  # noqa: E731
-        st_hi, lt_hi, banks = 7, 5, (0, 1, 2, 3)
-        big_from = 5
+        cfg = {"nmax": 5, "n_orient": lambda n: 5 if n <= 3 else 3, "full_rng": 2, "default_k": default_k, "ks": (0, default_k), "big_from": 5, "zero_upto": 3,
+               "sp_for": lambda n: SPACINGS if n <= 4 else (1.5, 2.0, 3.0), "perm_mode": lambda n: "all" if n <= 4 else "reversed"}
+        st_hi, lt_hi, banks, hist_depth = 7, 5, (0, 1, 2, 3), 3
+        e_shapes = [("chain", 1), ("chain", 2), ("chain", 3), ("arms", 1, 1), ("chain", 4), ("arms", 1, 2), ("arms", 2, 1)]
+        e_radii = lambda n: RADII if n <= 3 else (0.5, 1.5)  # noqa: E731
+        e_sp = lambda n: SPACINGS if n <= 3 else (1.5, 2.0, 3.0)  # noqa: E731
+        e_orients = lambda n: (0, 2) if n <= 2 else (2,)  # noqa: E731
 
     def gen_general():
         for n in range(1, st_hi + 1):
@@ -381,20 +635,36 @@ def spaces(tier, seed):
                         yield ("LT", list(p), b)
                     yield ("LT", list(p), "lattice")
 
+    def gen_history():
+        for seq in itertools.product(range(len(HIST_GEOS)), repeat=hist_depth):
+            yield list(seq)
+
+    sizes = range(1, cfg["nmax"] + 1)
     return [
         Space.of(
-            "collinear",
-            lambda: collinear_cases(nmax, n_orient, full_rng, default_k, sp_for, big_from),
-            check_collinear,
+            "collinear", lambda: collinear_cases(cfg), check_collinear,
             bounds={
-                "max_nodes": nmax, "radii": list(RADII),
-                "spacings": {str(n): list(sp_for(n)) for n in range(2, nmax + 1)},
-                "orientations": {str(n): [list(ORIENT[i]) for i in range(n_orient(n) if callable(n_orient) else n_orient)] for n in range(2, nmax + 1)},
-                "accuracy": {f"n<{big_from}": [str(a) for a in ACC_ALL], f"n>={big_from}": [str(a) for a in ACC_BIG] + ["default"]},
-                "rng_answers": {f"n<={full_rng}": "all 6", "larger": f"answer {default_k}"},
+                "max_nodes": cfg["nmax"], "radii": {str(n): ([0.0] if n <= cfg["zero_upto"] else []) + list(RADII) for n in sizes},
+                "spacings": {str(n): list(cfg["sp_for"](n)) for n in sizes if n > 1},
+                "orientations": {str(n): [list(ORIENT[i]) for i in range(cfg["n_orient"](n))] for n in sizes},
+                "accuracy": {f"n<{cfg['big_from']}": [str(a) for a in ACC_ALL] + ["default"], f"n>={cfg['big_from']}": [str(a) for a in ACC_BIG] + ["default"],
+                             "renumbered": [str(a) for a in ACC_PERM]},
+                "rng_answers": {f"n<={cfg['full_rng']}": "all 6", "larger": f"answers {list(cfg['ks'])} (0 = parallel to the axis first where legal)"},
+                "unsorted_numberings": {str(n): cfg["perm_mode"](n) for n in sizes if n >= 3},
                 "mc_samples": {"n<=3": 4096, "larger": 512},
             },
         ),
         Space.of("levels-1-2", gen_general, check_general,
-                 bounds={"ST_max_nodes": st_hi, "LT_max_nodes": lt_hi, "banks": list(banks) + ["lattice"]}),
+                 bounds={"ST_max_nodes": st_hi, "LT_max_nodes": lt_hi, "banks": list(banks) + ["lattice (zero-length edges, one zero radius)"]}),
+        Space.of("query-edit-query", lambda: edit_cases(e_shapes, e_radii, e_sp, e_orients), check_edit,
+                 bounds={"shapes": [list(x) for x in e_shapes], "radii": {str(size_of(x)): list(e_radii(size_of(x))) for x in e_shapes},
+                         "spacings": {str(size_of(x)): list(e_sp(size_of(x))) for x in e_shapes if size_of(x) > 1}, "orientations": {str(size_of(x)): list(e_orients(size_of(x))) for x in e_shapes},
+                         "edits": "every single radius / spacing replaced by every other alphabet value (both layouts admissible)",
+                         "routes": list(EDIT_HOWS), "accuracy": [str(a) for a in EDIT_ACCS] + ["extractor(accuracy=3)"]}),
+        Space.of("history-fresh-process", lambda: (list(q) for q in itertools.permutations(FRESH_GEOS, 2)), check_fresh,
+                 bounds={"geometries": [list(map(list, HIST_GEOS[i][:3])) + [HIST_GEOS[i][3]] for i in FRESH_GEOS], "sequence_length": 2,
+                         "history": "every ordered pair of distinct layouts, each in a new interpreter"}),
+        Space.of("history", gen_history, check_history,
+                 bounds={"geometries": len(HIST_GEOS), "sequence_length": hist_depth,
+                         "history": "fresh tree per position, first tree object again at the end; accuracy 3, 5, 1, default + extractor"}),
     ]
